@@ -245,6 +245,13 @@ func vpSetup(outDir string) {
 		opts.IPFIXMirrorAddr, opts.IPFIXMirrorPort, opts.IPFIXMirrorWorkers = "127.0.0.1", mp[0], 2
 		opts.SFlowMirrorAddr, opts.SFlowMirrorPort, opts.SFlowMirrorWorkers = "127.0.0.1", mp[1], 2
 	}
+	// VERIF_PIPE_SIZES=<sflow>,<ipfix>: unequal maximum datagram sizes for the two mirrored protocols
+	if v := os.Getenv("VERIF_PIPE_SIZES"); v != "" {
+		var a, b int
+		if n, _ := fmt.Sscanf(v, "%d,%d", &a, &b); n == 2 && a > 0 && b > 0 {
+			opts.SFlowUDPSize, opts.IPFIXUDPSize = a, b
+		}
+	}
 	vpIPForm = vpLearnIPForm()
 
 	vpProtos = map[string]*vpProto{}
